@@ -84,3 +84,12 @@ Qed.
 Print Assumptions C15_drain_conserves.
 Print Assumptions C15_resize_grow_drops_nothing.
 Print Assumptions C15_split_off_moves.
+
+(* splice conserves values: what the vector held plus what was spliced in is what it holds
+   afterwards plus what was removed (to be dropped by the Splice or taken by the caller) *)
+From BV Require Import VecSplice.
+Theorem C15_splice_conserves : forall e v c s e0 xs h0 h1 r,
+  repr e v c -> splice e v s e0 xs h0 h1 = Ret r ->
+  Permutation.Permutation (c ++ xs) (contents (s_vec r) ++ s_removed r).
+Proof. exact splice_conserves. Qed.
+Print Assumptions C15_splice_conserves.
